@@ -1,0 +1,45 @@
+//! Verification hooks (only compiled with the `verif-hooks` cargo feature).
+//!
+//! A process-global optional callback that the verification harness installs to
+//! observe (and act at) well-defined points of a dump.  With the feature off
+//! nothing of this module exists.
+
+use std::sync::{Arc, RwLock};
+
+/// A point in the dump at which the harness callback fires.
+#[derive(Debug, Clone, Copy, PartialEq, Eq)]
+pub enum Point {
+    /// `/proc/<pid>/task` has been enumerated; no thread is attached yet.
+    ThreadsEnumerated,
+    /// About to `PTRACE_ATTACH` to the given thread.
+    BeforeAttach(i32),
+    /// Attach to the given thread finished (true = thread kept in the list).
+    AfterAttach(i32, bool),
+    /// All threads that could be attached are suspended.
+    ThreadsSuspended,
+    /// About to detach from all threads at the end of a dump.
+    BeforeResume,
+    /// All threads were detached at the end of a dump.
+    AfterResume,
+}
+
+type Callback = Arc<dyn Fn(Point) + Send + Sync>;
+
+static CALLBACK: RwLock<Option<Callback>> = RwLock::new(None);
+
+/// Installs (or removes, with `None`) the global callback.
+pub fn set(cb: Option<Box<dyn Fn(Point) + Send + Sync>>) {
+    let mut guard = CALLBACK.write().unwrap_or_else(|e| e.into_inner());
+    *guard = cb.map(Arc::from);
+}
+
+/// Fires the callback, if one is installed.
+pub fn fire(point: Point) {
+    let cb = {
+        let guard = CALLBACK.read().unwrap_or_else(|e| e.into_inner());
+        guard.clone()
+    };
+    if let Some(cb) = cb {
+        cb(point);
+    }
+}
